@@ -88,9 +88,15 @@ class GCWorld(gen.World):
         if subject is not None:
             sd = {"mediaType": MT_OCI_M, "digest": subject, "size": len(self.g[repo].bytes.get(subject, b""))}
         # (layers of foreign / non-distributable media types are stored like any other layer once a manifest lists them)
+        extra = None
+        if mans and rng.random() < 0.12:
+            # a body that is both: an image (config, layers) that also carries a list of manifests - everything it names is referenced
+            kids = rng.sample(mans, min(len(mans), rng.randrange(1, 3)))
+            extra = {"manifests": [{"mediaType": self.g[repo].man[c]["mt"], "digest": c, "size": len(self.g[repo].bytes[c])} for c in kids]}
+            refs = refs + kids
         body = image_manifest(desc(MT_CFG if subject is None else MT_EMPTY, cfg),
                               [desc(MT_LAYER if rng.random() < 0.8 else rng.choice([gen.FOREIGN, "application/vnd.docker.image.rootfs.foreign.diff.tar.gzip"]), l) for l in layers],
-                              subject=sd, artifact_type=artifact_type, annotations={"n": str(len(self.steps))})
+                              subject=sd, artifact_type=artifact_type, annotations={"n": str(len(self.steps))}, extra=extra)
         return self.push(repo, body, MT_OCI_M, refs, subject=subject, tag=tag, kind="image")
 
     def index(self, repo, children, tag=None, subject=None):
